@@ -7,6 +7,7 @@ use crate::gen::*;
 use crate::props::c07::{obs_from_report, parse_table, Obs};
 use crate::val::V;
 use serde_json::{json, Value as J};
+use std::collections::BTreeSet;
 
 #[derive(Clone, Copy, PartialEq, Debug)]
 enum Mode {
@@ -16,8 +17,12 @@ enum Mode {
     StructuredPayload,
     /// the data file and a copy of it under another name in one run: both get the parameters
     StructuredTwoDataFiles,
+    /// the other structured renderings (each reporter is handed the merged data on its own)
+    StructuredYaml,
+    StructuredJunit,
+    StructuredSarif,
 }
-const MODES: [Mode; 5] = [Mode::PlainFiles, Mode::StructuredFiles, Mode::PlainPayload, Mode::StructuredPayload, Mode::StructuredTwoDataFiles];
+const MODES: [Mode; 8] = [Mode::PlainFiles, Mode::StructuredFiles, Mode::PlainPayload, Mode::StructuredPayload, Mode::StructuredTwoDataFiles, Mode::StructuredYaml, Mode::StructuredJunit, Mode::StructuredSarif];
 
 fn run_mode(mode: Mode, rules_path: &str, rules_text: &str, data_path: &str, data_text: &str, params: &[String]) -> Run {
     match mode {
@@ -25,6 +30,9 @@ fn run_mode(mode: Mode, rules_path: &str, rules_text: &str, data_path: &str, dat
         Mode::StructuredFiles => validate_files(&[rules_path.to_string()], &[data_path.to_string()], params, &VOpts::structured(Fmt::Json), ""),
         Mode::PlainPayload => validate_payload(&[rules_text.to_string()], &[data_text.to_string()], params, &VOpts::plain(Fmt::Single, vec![Show::All])),
         Mode::StructuredPayload => validate_payload(&[rules_text.to_string()], &[data_text.to_string()], params, &VOpts::structured(Fmt::Json)),
+        Mode::StructuredYaml => validate_files(&[rules_path.to_string()], &[data_path.to_string()], params, &VOpts::structured(Fmt::Yaml), ""),
+        Mode::StructuredJunit => validate_files(&[rules_path.to_string()], &[data_path.to_string()], params, &VOpts::structured(Fmt::Junit), ""),
+        Mode::StructuredSarif => validate_files(&[rules_path.to_string()], &[data_path.to_string()], params, &VOpts::structured(Fmt::Sarif), ""),
         Mode::StructuredTwoDataFiles => {
             // the copy lives next to the data file
             let copy = format!("{}.copy.json", data_path);
@@ -44,6 +52,28 @@ fn observe(mode: Mode, r: &Run) -> Result<Obs, String> {
                 return Err(format!("the data file and its copy get different verdicts in one run: {:?} vs {:?}", a, b));
             }
             Ok(a)
+        }
+        Mode::StructuredYaml => {
+            let j: J = serde_yaml::from_str(&r.out).map_err(|e| format!("structured output is not YAML: {}", e))?;
+            obs_from_report(&j[0])
+        }
+        Mode::StructuredJunit => {
+            // one test case per rules file: its mark, and the names in the failure messages
+            let ju = crate::props::c07::parse_junit(&r.out)?;
+            let set = |m: &str| -> BTreeSet<String> { ju.cases.iter().filter(|c| c.1 == m).map(|c| c.0.clone()).collect() };
+            Ok(Obs { pass: Some(set("pass")), fail: Some(set("fail")), skip: Some(set("skip")), file: None })
+        }
+        Mode::StructuredSarif => {
+            // the failing checks by rule id (data file names differ between the split and the merged run)
+            let j: J = serde_json::from_str(&r.out).map_err(|e| format!("SARIF output is not JSON: {}", e))?;
+            let mut ids = BTreeSet::new();
+            let mut n = 0;
+            for res in j["runs"][0]["results"].as_array().cloned().unwrap_or_default() {
+                ids.insert(format!("{}#{}", res["ruleId"].as_str().unwrap_or(""), n));
+                n += 1;
+            }
+            let ids: BTreeSet<String> = ids.into_iter().map(|s| s.split('#').next().unwrap_or("").to_string()).collect();
+            Ok(Obs { pass: None, fail: Some(ids), skip: Some([format!("results:{}", n)].into_iter().collect()), file: None })
         }
         _ => {
             let j: J = serde_json::from_str(&r.out).map_err(|e| format!("structured output is not JSON: {}", e))?;
